@@ -27,56 +27,11 @@ class TPin(CExec):
     family = "T-PIN"
     allowed = ()          # decl ids of pointer locals that may be pinned at a loop head
 
-    def pointer_locals(self):
-        out = []
-        todo = [self.fn]
-        while todo:
-            n = todo.pop()
-            if n.get("kind") in ("VarDecl", "ParmVarDecl") and \
-                    n.get("type", {}).get("qualType", "") in PERSISTENT_PTR:
-                out.append((n["id"], n.get("name")))
-            todo.extend(n.get("inner", []))
-        return out
-
     def summary(self):
         if not hasattr(self.tu, "_summary"):
             from . import summary
             self.tu._summary = summary.summarize(self.tu)
         return self.tu._summary
-
-    def flag_locals(self):
-        """int locals that are only ever assigned integer literals (flags)."""
-        decls, bad = {}, set()
-        todo = [self.fn]
-        while todo:
-            n = todo.pop()
-            k = n.get("kind")
-            if k == "VarDecl" and n.get("type", {}).get("qualType") == "int":
-                decls[n["id"]] = n.get("name")
-                init = [c for c in n.get("inner", []) if "kind" in c]
-                if init and not self._is_lit(init[0]):
-                    bad.add(n["id"])
-            tgt = val = None
-            if k == "BinaryOperator" and n.get("opcode") == "=":
-                tgt, val = n["inner"]
-            elif k == "CompoundAssignOperator" or (k == "UnaryOperator" and n.get("opcode") in ("++", "--", "&")):
-                tgt = n["inner"][0]
-            if tgt is not None:
-                t = tgt
-                while t["kind"] in ("ParenExpr", "ImplicitCastExpr"):
-                    t = t["inner"][0]
-                if t["kind"] == "DeclRefExpr":
-                    if val is None or not self._is_lit(val):
-                        bad.add(t["referencedDecl"]["id"])
-            todo.extend(n.get("inner", []))
-        return [(i, nm) for i, nm in decls.items() if i not in bad]
-
-    def _is_lit(self, n):
-        while n.get("kind") in ("ParenExpr", "ImplicitCastExpr", "ConstantExpr"):
-            n = n["inner"][0]
-        if n.get("kind") == "UnaryOperator" and n.get("opcode") == "-":
-            n = n["inner"][0]
-        return n.get("kind") == "IntegerLiteral"
 
     def allowed_or(self, st, o):
         out = []
